@@ -74,12 +74,20 @@ def write_model(system, model, model_path,
     _increment_backups(model, root, max_backups)
 
     serializer = _get_serializer(version)
-    serializer.ModelWriter(system, model, root,
-                           is_zip=is_zip,
-                           log_input=log_input,
-                           compression=compression,
-                           compresslevel=compresslevel
-                           ).write_model()
+    try:
+        serializer.ModelWriter(system, model, root,
+                               is_zip=is_zip,
+                               log_input=log_input,
+                               compression=compression,
+                               compresslevel=compresslevel
+                               ).write_model()
+    except BaseException:
+        # Do not leave a partially written folder at the path.
+        # It would be rotated into the backups by the next save
+        # as if it were a good save.
+        if not is_zip and root.is_dir():
+            shutil.rmtree(root, ignore_errors=True)
+        raise
 
     if model.path != root:
         model.path = root
